@@ -23,6 +23,16 @@ ST_ = "magpylib/_src/style.py"
 TU_ = "magpylib/_src/display/traces_utility.py"
 TMF = FD + "field_BH_triangularmesh.py"
 MUTANTS = [
+    ("C15", "zero-area-triangle-nan-again", FD + "field_BH_triangle.py", "    BHJM[mask_zero_area] = 0\n", "    pass\n", "red"),
+    ("C15", "zero-volume-tetrahedron-inverted-again", FD + "field_BH_tetrahedron.py", "    mask_vol = np.linalg.det(mat) != 0", "    mask_vol = np.linalg.det(mat) == np.linalg.det(mat)", "red"),
+    ("C17", "zero-volume-tetrahedron-linalgerror-again", FD + "field_BH_tetrahedron.py", "    mask_vol = np.linalg.det(mat) != 0", "    mask_vol = np.linalg.det(mat) == np.linalg.det(mat)", "red"),
+    ("C02", "tetrahedron-interior-test-ignores-one-face", FD + "field_BH_tetrahedron.py", "            & (np.sum(newp, axis=1) <= 1)\n", "", "red"),
+    ("C02", "tetrahedron-interior-lower-bound-shifted", FD + "field_BH_tetrahedron.py", "            np.all(newp >= 0, axis=1)\n", "            np.all(newp >= 1e-3, axis=1)\n", "red"),
+    ("C02", "tetrahedron-interior-origin-vertex-1", FD + "field_BH_tetrahedron.py", "        rel_pos = (points - vertices[:, 0, :])[mask_vol]", "        rel_pos = (points - vertices[:, 1, :])[mask_vol]", "red"),
+    ("C02", "tetrahedron-interior-comparisons-reordered(property-preserving)", FD + "field_BH_tetrahedron.py", "            np.all(newp >= 0, axis=1)\n            & np.all(newp <= 1, axis=1)\n", "            np.all(newp <= 1, axis=1)\n            & np.all(newp >= 0, axis=1)\n", "equivalent"),
+    ("C02", "tetrahedron-degenerate-rows-inside", FD + "field_BH_tetrahedron.py", "    inside = np.zeros(len(points), dtype=bool)", "    inside = np.ones(len(points), dtype=bool)", "red"),
+    ("C15", "triangle-zero-area-mask-on-first-side-only", FD + "field_BH_triangle.py", "    mask_zero_area = np.all(np.cross(side1, side2) == 0, axis=-1)", "    mask_zero_area = np.all(side1 == 0, axis=-1)", "red"),
+    ("C12", "triangle-zero-area-mask-with-tolerance", FD + "field_BH_triangle.py", "    mask_zero_area = np.all(np.cross(side1, side2) == 0, axis=-1)", "    mask_zero_area = np.all(np.isclose(np.cross(side1, side2), 0), axis=-1)", "red"),
     ("C09", "empty-position-accepted-again", IC_, "        if inp.size == 0:\n            raise MagpylibBadUserInput(", "        if False:\n            raise MagpylibBadUserInput(", "red"),
     ("C09", "empty-orientation-accepted-again", IC_, "        if np.size(inpQ) == 0:", "        if False:", "red"),
     ("C19", "frame-index-clamp-off-by-one", TU_, "    inds[inds >= path_len] = path_len - 1", "    inds[inds >= path_len - 1] = path_len - 2", "red"),
